@@ -173,6 +173,106 @@ filter_impl!(build_tcp, cfg_tcp, huginn_net_tcp);
 filter_impl!(build_http, cfg_http, huginn_net_http);
 filter_impl!(build_tls, cfg_tls, huginn_net_tls);
 
+/// The same configuration reached through other builder paths: `Default::default()` instead of `new()` (both sides off),
+/// any sequence of up to three side selectors (the last one decides), the list form, addresses added before and after the
+/// selectors, a sub-filter or the mode installed twice (the later replaces the earlier). One entry per form:
+/// (description, expected (source side, destination side), the filter's verdict for an address pair).
+type Form = (String, (bool, bool), Box<dyn Fn(&IpAddr, &IpAddr) -> (bool, bool) + Sync + Send>);
+macro_rules! forms_impl {
+    ($name:ident, $krate:ident) => {
+        pub fn $name() -> Vec<Form> {
+            use $krate::{FilterConfig, FilterMode, IpFilter, SubnetFilter};
+            let mut v: Vec<Form> = vec![];
+            let seqs: Vec<Vec<u8>> = {
+                let mut out = vec![vec![]];
+                let mut cur: Vec<Vec<u8>> = vec![vec![]];
+                for _ in 0..3 {
+                    let mut next = vec![];
+                    for s in &cur {
+                        for c in [0u8, 1] {
+                            let mut n = s.clone();
+                            n.push(c);
+                            next.push(n);
+                        }
+                    }
+                    out.extend(next.clone());
+                    cur = next;
+                }
+                out
+            };
+            for from_default in [false, true] {
+                for seq in &seqs {
+                    for allow_late in [false, true] {
+                        let sides = match seq.last() {
+                            Some(0) => (true, false),
+                            Some(_) => (false, true),
+                            None => {
+                                if from_default {
+                                    (false, false)
+                                } else {
+                                    (true, true)
+                                }
+                            }
+                        };
+                        let desc = format!("{}{}{}{}", if from_default { "default()" } else { "new()" }, if allow_late { "" } else { ".allow(..)" }, seq.iter().map(|c| if *c == 0 { ".source_only()" } else { ".destination_only()" }).collect::<String>(), if allow_late { ".allow_list(..)" } else { "" });
+                        let mut ipf = if from_default { IpFilter::default() } else { IpFilter::new() };
+                        let mut snf = if from_default { SubnetFilter::default() } else { SubnetFilter::new() };
+                        if !allow_late {
+                            ipf = ipf.allow("10.0.0.1").expect("address").allow("2001:db8::1").expect("address");
+                            snf = snf.allow("10.0.0.0/31").expect("cidr").allow("2001:db8::/127").expect("cidr");
+                        }
+                        for c in seq {
+                            if *c == 0 {
+                                ipf = ipf.source_only();
+                                snf = snf.source_only();
+                            } else {
+                                ipf = ipf.destination_only();
+                                snf = snf.destination_only();
+                            }
+                        }
+                        if allow_late {
+                            ipf = ipf.allow_list(vec!["10.0.0.1", "2001:db8::1"]).expect("addresses");
+                            snf = snf.allow_list(vec!["10.0.0.0/31", "2001:db8::/127"]).expect("cidrs");
+                        }
+                        // installed after a decoy that must be replaced, mode set twice
+                        let fc_ip = FilterConfig::new().mode(FilterMode::Deny).with_ip_filter(IpFilter::new().allow("11.0.0.1").expect("address")).with_ip_filter(ipf.clone()).mode(FilterMode::Allow);
+                        let fc_sn = FilterConfig::default().with_subnet_filter(SubnetFilter::new().allow("11.0.0.0/8").expect("cidr")).with_subnet_filter(snf.clone()).mode(FilterMode::Allow);
+                        v.push((format!("IpFilter::{desc}"), sides, Box::new(move |s, d| (ipf.matches(s, d), fc_ip.should_process(s, d, 1, 2)))));
+                        v.push((format!("SubnetFilter::{desc}"), sides, Box::new(move |s, d| (snf.matches(s, d), fc_sn.should_process(s, d, 1, 2)))));
+                    }
+                }
+            }
+            v
+        }
+    };
+}
+forms_impl!(forms_tcp, huginn_net_tcp);
+forms_impl!(forms_http, huginn_net_http);
+forms_impl!(forms_tls, huginn_net_tls);
+fn check_forms(r: &mut Report) {
+    let ips = endpoints();
+    for (krate, forms) in [("tcp", forms_tcp()), ("http", forms_http()), ("tls", forms_tls())] {
+        for (desc, (ss, ds), f) in forms {
+            let subnet = desc.starts_with("Subnet");
+            let af = AF { addrs: if subnet { vec!["10.0.0.0/31".into(), "2001:db8::/127".into()] } else { vec!["10.0.0.1".into(), "2001:db8::1".into()] }, src: ss, dst: ds };
+            for si in &ips {
+                for di in &ips {
+                    if si.is_ipv4() != di.is_ipv4() {
+                        continue;
+                    }
+                    r.exec(1);
+                    let exp = if subnet { ref_sf(&af, si, di) } else { ref_af(&af, si, di) };
+                    let (m, sp) = f(si, di);
+                    r.outcome(&("form", ss, ds, m));
+                    if m != exp || sp != exp {
+                        r.dev(format!("C14/builder-form/{krate}/{}", if subnet { "subnet" } else { "address" }), "builder-form", || json!({"kind": "builder-form", "crate": krate, "form": desc, "src": si.to_string(), "dst": di.to_string(), "expected": exp, "matches": m, "should_process_in_allow_mode": sp}));
+                    }
+                }
+            }
+        }
+    }
+}
+
 pub fn build_for(krate: &str, c: &Cfg) -> Eval {
     match krate {
         "tcp" => build_tcp(c),
@@ -326,9 +426,11 @@ pub fn run(thorough: bool) -> Outcome {
         }
         r
     });
+    let mut report = report;
+    check_forms(&mut report);
     Outcome {
         report,
-        rule: "every filter configuration of the alphabet x every same-family endpoint pair x every port pair, on the three filter.rs copies; distinct = distinct truth tables over the endpoint alphabet".into(),
+        rule: "every filter configuration of the alphabet x every same-family endpoint pair x every port pair, on the three filter.rs copies; builder forms: address and subnet filters built from new() / default(), with every sequence of up to three side selectors, addresses added before or after them, installed after a decoy filter and with the mode set twice (the last call decides) x every endpoint pair; distinct = distinct truth tables over the endpoint alphabet".into(),
         exhaustive: true,
         bounds: json!({"configurations": cfgs.len(), "crates": krates, "addresses": ips.len(), "ports": ports}),
     }
@@ -336,6 +438,10 @@ pub fn run(thorough: bool) -> Outcome {
 
 pub fn replay(ex: &serde_json::Value) -> Report {
     let mut r = Report::new();
+    if ex["kind"].as_str() == Some("builder-form") {
+        check_forms(&mut r);
+        return r;
+    }
     let Ok(c) = serde_json::from_value::<Cfg>(ex["cfg"].clone()) else {
         r.machinery_error("bad replay file");
         return r;
